@@ -42,7 +42,7 @@ def cases_for(ctx, focus_limits):
             total = corr_expand.pt_size(pcfg, pt)
             if total > 400:
                 continue
-            limits = corr_expand.limits_for(total, rng, ctx.quick) if focus_limits else [None, rng.choice([1, 2, max(1, total - 1)])]
+            limits = corr_expand.limits_for(total, rng, ctx.quick) if focus_limits else [None]
             want = corr_expand.product_oracle(pcfg, pt)
             for lim in limits:
                 n_ret, lines, raised = corr_expand.real_create(pcfg, pt, lim)
@@ -62,9 +62,11 @@ def cases_for(ctx, focus_limits):
                 dist['markov'] += int(is_m)
                 dist['multi_mask'] += int(multi_mask)
                 dist['adjacent_alpha'] += int(adj)
-                if raised:
+                if raised and not is_m:
                     viol.append({'property': 'C04', 'kind': 'create-guesses-raised', 'pt': str(pt), 'limit': lim,
                                  'witness': {'spec': spec, 'flags': flags, 'pt': pt, 'limit': lim}})
+                    continue
+                if raised:
                     continue
                 if want is not None:
                     w = want if lim is None else want[:lim]
